@@ -44,6 +44,11 @@ impl FromStr for Score {
 
     fn from_str(s: &str) -> Result<Self, Self::Err> {
         let n: u32 = lexical::parse(s).map_err(ParseError::Parse)?;
+        // `lexical` 6.1 does not detect every overflow (a 10-digit value may come back wrapped modulo
+        // 2^32): accept the value only if the standard library parser agrees with it.
+        if s.parse::<u32>() != Ok(n) {
+            return Err(ParseError::Parse(lexical::Error::Overflow(s.len())));
+        }
         Ok(Self::try_from(n).unwrap_or(Score(1000)))
         //map_err(ParseError::Invalid)
     }
